@@ -49,7 +49,7 @@ for pid in sorted(claimed):
         "engine": "dst",
         "level_claimed": {"category": level, "text": text, "design_ref": "DESIGN.md section " + ref},
         "level_note": "trusted: Go toolchain and runtime (testing/synctest, race detector), the source rewriter (range-over-map, go, time.AfterFunc; validated by running the repository's own suite on the rewritten tree), the lock model of the conductor, the harness' reference models; the shim is simulated; sampling, not proof",
-        "technique": "deterministic simulation with fault injection (seeded schedule, clock, map order and shim faults; reference-model oracles)",
+        "technique": "deterministic simulation with fault injection (seeded schedule at lock granularity, fake clock, seeded map order, shim/transport faults; reference-model oracles over the recorded history and at quiescent points)",
     })
 m = {
  "version": 1,
